@@ -758,7 +758,9 @@ func (dc *domCtx) check(w *domWorker, t *tally, seq []item, o domOpts) (fails []
 			write           func() error
 		}{
 			{"file[type=text]", "text", textPath, func() error { return os.WriteFile(textPath, []byte(canonical), 0o644) }},
-			{"file[type=\"\"]", "", textPath, func() error { return os.WriteFile(textPath, []byte(renderText(seq, textVariant{CRLF: true, Noise: 2})), 0o644) }},
+			{"file[type=\"\"]", "", textPath, func() error {
+				return os.WriteFile(textPath, []byte(renderText(seq, textVariant{CRLF: true, Noise: 2})), 0o644)
+			}},
 			{"file[type=gob]", "gob", gobPath, func() error {
 				b := mkBuilder(2)
 				for _, it := range seq {
@@ -890,8 +892,7 @@ func directNames() []string {
 }
 
 func domainParts(c *harness.Check) {
-	depth := harness.Pick(c, 4, 5)
-	dc := newDomCtx(domLabels, depth, 0)
+	dc := newDomCtx(domLabels, 4, 0)
 	names3 := genNames(domLabels, 3)           // 84
 	names3small := genNames(domLabelsSmall, 3) // 39
 	names2 := genNames(domLabels, 2)           // 20
@@ -900,47 +901,62 @@ func domainParts(c *harness.Check) {
 	c.Extra["direct_representations"] = directNames()
 
 	// 1. suffix rules in every insertion order (the trie is order sensitive by construction)
-	runSeqPart(c, 1, "domain/suffix-sequences", dc, newSeqSpace(itemsOf('S', names3), 3),
-		domOpts{direct: true, paths: shortPaths},
-		map[string]any{"alphabet": "suffix rules = every name of <=3 labels over {a,b,ab,\"\"}", "order": "every ordered sequence with repetition", "set_paths": pathNames(shortPaths)})
-	if c.Thorough() {
-		runSeqPart(c, 2, "domain/suffix-sequences-len4", dc, newSeqSpace(itemsOf('S', names3small), 4),
-			domOpts{direct: true, paths: shortPaths},
-			map[string]any{"alphabet": "suffix rules = every name of <=3 labels over {a,b,\"\"}", "order": "every ordered sequence with repetition", "set_paths": pathNames(shortPaths)})
-	}
+	seqOpts := domOpts{direct: true, paths: shortPaths}
+	every := "every ordered sequence with repetition"
+	runSeqPart(c, 1, "domain/suffix-sequences(4 labels)", dc, newSeqSpace(itemsOf('S', names3), harness.Pick(c, 2, 3)), seqOpts,
+		map[string]any{"alphabet": "suffix rules = every name of <=3 labels over {a,b,ab,\"\"}", "order": every, "set_paths": pathNames(shortPaths)})
+	runSeqPart(c, 2, "domain/suffix-sequences(3 labels)", dc, newSeqSpace(itemsOf('S', names3small), harness.Pick(c, 3, 4)), seqOpts,
+		map[string]any{"alphabet": "suffix rules = every name of <=3 labels over {a,b,\"\"}", "order": every, "set_paths": pathNames(shortPaths)})
 	// 2. the other kinds on their own
-	runSeqPart(c, 3, "domain/domain-sequences", dc, newSeqSpace(itemsOf('D', harness.Pick(c, names3small, names3)), 3),
-		domOpts{direct: true, paths: shortPaths},
-		map[string]any{"alphabet": "domain rules = every name of <=3 labels", "order": "every ordered sequence with repetition"})
-	runSeqPart(c, 4, "domain/keyword-sequences", dc, newSeqSpace(itemsOf('K', names2), 3),
-		domOpts{direct: true, paths: shortPaths},
-		map[string]any{"alphabet": "keyword rules = every name of <=2 labels over {a,b,ab,\"\"}", "order": "every ordered sequence with repetition"})
-	runSeqPart(c, 5, "domain/regexp-sequences", dc, newSeqSpace(itemsOf('X', regexpAlphabet), 3),
+	runSeqPart(c, 3, "domain/domain-sequences(4 labels)", dc, newSeqSpace(itemsOf('D', names3), harness.Pick(c, 2, 3)), seqOpts,
+		map[string]any{"alphabet": "domain rules = every name of <=3 labels over {a,b,ab,\"\"}", "order": every})
+	runSeqPart(c, 4, "domain/domain-sequences(3 labels)", dc, newSeqSpace(itemsOf('D', names3small), 3), seqOpts,
+		map[string]any{"alphabet": "domain rules = every name of <=3 labels over {a,b,\"\"}", "order": every})
+	runSeqPart(c, 5, "domain/keyword-sequences", dc, newSeqSpace(itemsOf('K', names2), 3), seqOpts,
+		map[string]any{"alphabet": "keyword rules = every name of <=2 labels over {a,b,ab,\"\"}", "order": every})
+	runSeqPart(c, 6, "domain/regexp-sequences", dc, newSeqSpace(itemsOf('X', regexpAlphabet), 3),
 		domOpts{direct: true, paths: shortPaths, clearX: true},
-		map[string]any{"alphabet": regexpAlphabet, "order": "every ordered sequence with repetition"})
+		map[string]any{"alphabet": regexpAlphabet, "order": every})
 
 	// 3. mixed kinds, every order of lines
-	var mixed []item
-	if c.Thorough() {
-		mixed = append(mixed, itemsOf('D', names3)...)
-		mixed = append(mixed, itemsOf('S', names3)...)
-		mixed = append(mixed, itemsOf('K', names2)...)
-		mixed = append(mixed, itemsOf('X', regexpAlphabet)...)
-	} else {
-		mixed = append(mixed, itemsOf('D', names3small)...)
-		mixed = append(mixed, itemsOf('S', names3small)...)
-		mixed = append(mixed, itemsOf('K', names2small)...)
-		mixed = append(mixed, itemsOf('X', regexpAlphabet[:10])...)
+	var mixedSmall, mixed, mixedBig []item
+	mixedSmall = append(mixedSmall, itemsOf('D', names2small)...)
+	mixedSmall = append(mixedSmall, itemsOf('S', names2small)...)
+	mixedSmall = append(mixedSmall, itemsOf('K', []string{"a", "b", ".", "a.", ".a", "a.b"})...)
+	mixedSmall = append(mixedSmall, itemsOf('X', regexpAlphabet[:6])...)
+	mixed = append(mixed, itemsOf('D', names3small)...)
+	mixed = append(mixed, itemsOf('S', names3small)...)
+	mixed = append(mixed, itemsOf('K', names2small)...)
+	mixed = append(mixed, itemsOf('X', regexpAlphabet[:10])...)
+	mixedBig = append(mixedBig, itemsOf('D', names3)...)
+	mixedBig = append(mixedBig, itemsOf('S', names3)...)
+	mixedBig = append(mixedBig, itemsOf('K', names2)...)
+	mixedBig = append(mixedBig, itemsOf('X', regexpAlphabet)...)
+	mixedDesc := func(a []item) string {
+		var n [4]int
+		for _, it := range a {
+			n[kindIndex[it.K]]++
+		}
+		return fmt.Sprintf("%d rules: %d domain + %d suffix + %d keyword + %d regexp (names over the label vocabulary; regexps from the fixed list)", len(a), n[0], n[1], n[2], n[3])
 	}
-	runSeqPart(c, 6, "domain/mixed-sequences", dc, newSeqSpace(mixed, 3),
+	runSeqPart(c, 7, "domain/mixed-sequences", dc, newSeqSpace(harness.Pick(c, mixedSmall, mixed), 3),
 		domOpts{paths: shortPaths},
-		map[string]any{"alphabet": "domain+suffix rules = names of <=3 labels, keyword rules = names of <=2 labels, regexp rules = fixed list; quick uses labels {a,b,\"\"}, thorough {a,b,ab,\"\"}", "order": "every ordered sequence with repetition (every insertion / line order)", "set_paths": pathNames(shortPaths)})
+		map[string]any{"alphabet": mixedDesc(harness.Pick(c, mixedSmall, mixed)), "order": every + " (every insertion / line order)", "set_paths": pathNames(shortPaths)})
 
-	// 4. every text variant on every sequence of <=2 rules; every set path too
+	// 4. every text variant and every set path on every sequence of <=2 rules
 	variants := allVariants()
-	runSeqPart(c, 7, "domain/text-variants", dc, newSeqSpace(mixed, harness.Pick(c, 2, 2)),
+	runSeqPart(c, 8, "domain/text-variants", dc, newSeqSpace(harness.Pick(c, mixed, mixedBig), 2),
 		domOpts{paths: fullPaths, variants: variants, clearX: true},
-		map[string]any{"variants": len(variants), "variant_axes": map[string]any{"eol": []string{"LF", "CRLF"}, "final_newline": []bool{true, false}, "capacity_hint": hintNames, "noise": noiseNames}, "set_paths": pathNames(fullPaths)})
+		map[string]any{"alphabet": mixedDesc(harness.Pick(c, mixed, mixedBig)), "order": every, "variants": len(variants), "variant_axes": map[string]any{"eol": []string{"LF", "CRLF"}, "final_newline": []bool{true, false}, "capacity_hint": hintNames, "noise": noiseNames}, "set_paths": pathNames(fullPaths)})
+
+	if c.Thorough() {
+		// one more label on the probe side
+		dc5 := newDomCtx(domLabels, 5, 0)
+		runSeqPart(c, 10, "domain/deep-probes(suffix)", dc5, newSeqSpace(itemsOf('S', names3), 2), seqOpts,
+			map[string]any{"alphabet": "suffix rules = every name of <=3 labels over {a,b,ab,\"\"}; probes = every name of <=5 labels", "order": every})
+		runSeqPart(c, 11, "domain/deep-probes(mixed)", dc5, newSeqSpace(mixedBig, 2), domOpts{paths: shortPaths},
+			map[string]any{"alphabet": mixedDesc(mixedBig) + "; probes = every name of <=5 labels", "order": every})
+	}
 
 	thresholdPart(c, variants)
 	edgePart(c)
@@ -1051,7 +1067,7 @@ func thresholdPart(c *harness.Check, variants []textVariant) {
 			fails, nontrivial := dc.check(w, t, seq, o)
 			c.Distinct(canonKey(seq), nontrivial)
 			for _, f := range fails {
-				report(8<<48|i, f.sig(), f.what(seq), replayOfDomain(dc, seq, f))
+				report(9<<48|i, f.sig(), f.what(seq), replayOfDomain(dc, seq, f))
 			}
 			if i == 5 || i == int64(len(cfgs))-1 {
 				first := itemsJSON(seq[:min(6, len(seq))])
